@@ -396,7 +396,7 @@ def save_replay(pid, obj, tag=None):
 
 
 # ---------------------------------------------------------------- traces
-def validate_traces(trace_files, scratch, module="TraceCore.tla", cfg="TraceCore.cfg",
+def validate_traces(trace_files, scratch, module="TraceAll.tla", cfg="TraceAll.cfg",
                     nproc=None, timeout=900):
     """Run TLC trace validation on each ndjson file (one JVM per file, in
     parallel).  Returns (verdicts, total_events): verdicts is a list of dicts
@@ -446,3 +446,11 @@ def validate_traces(trace_files, scratch, module="TraceCore.tla", cfg="TraceCore
     res = parallel(one, files, nproc or NCPU)
     verdicts = [v for vs, _n in res for v in vs]
     return verdicts, sum(n for _vs, n in res)
+
+
+def save_replay_text(pid, text, ext="scr"):
+    os.makedirs(os.path.join(OUT, "replay"), exist_ok=True)
+    p = os.path.join(OUT, "replay", "%s-%s.%s" % (pid, sha(text)[:10], ext))
+    with open(p, "w") as f:
+        f.write(text)
+    return p
